@@ -9,10 +9,10 @@ import (
 )
 
 var commonAssumptions = []string{
-	"the scheduler's granularity: one managed goroutine runs at a time and may be preempted exactly before a lock, a positive WaitGroup.Add, WaitGroup.Wait, a channel operation / select, a sync.Map operation, a virtual timer, a fake I/O seam (websocket Accept/Ping/Write, file read, HTTP round trip) and a harness cell; Unlock / Done / close(ch) are release operations that do not yield. This covers every behaviour of a program whose shared accesses are ordered by those operations; unsynchronised accesses are the job of the separate free-running -race pass (coverage.race_pass)",
+	"the scheduler's granularity: one managed goroutine runs at a time and may be preempted exactly before a Lock/RLock, a positive WaitGroup.Add, WaitGroup.Wait, a channel send/receive/select/close, a sync.Map operation, a context cancellation, a ctx.Err() read of a not yet cancelled context, a virtual timer event, a fake I/O seam (websocket Accept/Ping/Write/Close, file read, HTTP round trip) and a harness cell; Unlock / RUnlock / Done are left-movers (TryLock is not offered) and do not yield. By Lipton's reduction this covers every behaviour of a program whose shared accesses are ordered by those operations; unsynchronised accesses are the job of the separate free-running -race pass (coverage.race_pass)",
 	"state-key pruning identifies two decision nodes when every thread has the same history of operation results and every synchronisation object has the same sequence of operations applied (Mazurkiewicz-equivalent prefixes); keys are 64-bit hashes (collision probability < 1e-5 at 1e7 states)",
 	"context deadlines (1 h, 5 min, 30 s, 1 min) never expire inside an execution; context cancellation is observed through the closed Done channel",
-	"trusted: the Go runtime and go/types (the rewriter), the vsched shim's model of sync / channels / timers (self-tested on six toy systems with known answers at the start of every run), the fakes standing in for coder/websocket, fsnotify, xbrowser, the listener and the render step",
+	"trusted: the Go runtime and go/types (the rewriter), the vsched shim's model of sync / channels / timers (self-tested on seven toy systems with known answers at the start of every run), the fakes standing in for coder/websocket, fsnotify, xbrowser, the listener and the render step",
 }
 
 func watchRace(dir string) []Job {
